@@ -740,6 +740,19 @@ def iterative_session(ctx, i, rng, return_logprobs=False, problem_kw=None):
         opts.pop("growth_factor", None)
         opts["init_batch_size"] = int(rng.choice([N + 1, N + 50, 3 * N]))
         opts["max_prior_samples"] = int(rng.choice([N + 7, 5 * N]))
+    elif rng.random() < 0.07:
+        # the whole library as the first batch, visited in a random order, as one task: the batch is a permutation of a complete
+        # block of rows
+        in_memory = False
+        opts["in_memory"] = False
+        opts.pop("growth_factor", None)
+        opts.pop("max_prior_samples", None)
+        opts["init_batch_size"] = N
+        opts["randomize_prior_order"] = True
+        if rng.random() < 0.7:
+            opts["n_batches"] = 1
+        else:
+            opts.pop("n_batches", None)
     if return_logprobs:
         opts["return_logprobs"] = True
     inj_kind = str(rng.choice(["none", "none", "none", "neg-inf", "ties"]))
